@@ -1456,7 +1456,8 @@ def _load_memmap(cls, prefix: Path, metadata: dict, **kwargs):
 
 
 def __enter__(self, *args, **kwargs):
-    return self._tensordict.__enter__(*args, **kwargs)
+    self._tensordict.__enter__(*args, **kwargs)
+    return self
 
 
 def __exit__(self, *args, **kwargs):
@@ -2289,7 +2290,7 @@ def _del_(self, key):
     if len(key) > 1:
         td = self.get(key[0])
         td.del_(key[1:])
-        return
+        return self
     if key[0] in self._tensordict.keys():
         self._tensordict.del_(key[0])
         # self.set(key[0], None)
@@ -2297,7 +2298,7 @@ def _del_(self, key):
         self._non_tensordict[key[0]] = None
     else:
         raise KeyError(f"Key {key} could not be found in tensorclass {self}.")
-    return
+    return self
 
 
 def _set_at_(
@@ -2305,7 +2306,8 @@ def _set_at_(
 ):
     if key in self._non_tensordict:
         del self._non_tensordict[key]
-    return self._tensordict.set_at_(key, value, idx, non_blocking=non_blocking)
+    self._tensordict.set_at_(key, value, idx, non_blocking=non_blocking)
+    return self
 
 
 def _get(self, key: NestedKey, *args, **kwargs):
